@@ -66,6 +66,7 @@ def run_case(case: dict) -> dict:
     try:
         out = iosim.execute(case, sbx)
     finally:
+        iosim.disarm_as()
         fsig = fs.stop()
         shutil.rmtree(sbx, ignore_errors=True)
     entry = case["entry"]
